@@ -91,3 +91,81 @@ Theorem C03_layout_pre : forall (HO : hops), cv_len32 HO ->
   create_sized_fsm HO PreIO data size bs = Ok (mkOb PreIO (root_hash HO data) t (spec_outboard HO false data bs)).
 Proof. exact layout_pre. Qed.
 Print Assumptions C03_layout_pre.
+
+(* ======== End-to-end composition (proofs in Proofs/E2EOutboard.v) ========
+   The theorems above with their interface hypotheses discharged: the plan hypothesis by C15_post_plan
+   (Proofs/Compose.v), the offset hypotheses by C12_post_offsets / C12_pre_offsets. *)
+From BaoV Require Import Spec.NodeSpec Proofs.E2EOutboard.
+
+(* the parents of the post-order plan are exactly the stored nodes of the Shape, in post order *)
+Theorem C03_plan_parents_are_stored : forall (HO : hops) (data : bytes HO) (bs : N),
+  blen HO data <= 2 ^ 63 ->
+  plan_parents (post_plan (blen HO data) bs)
+    = filter (sp_persisted (blen HO data) bs) (sp_post_nodes (blen HO data) bs).
+Proof. exact post_plan_parents. Qed.
+Print Assumptions C03_plan_parents_are_stored.
+
+Theorem C03_post_order_writer_e2e : forall (HO : hops) (data : bytes HO) (bs : N),
+  blen HO data <= 2 ^ 63 -> bs <= 10 ->
+  outboard_post_order HO (mkTree (blen HO data) bs) data
+    = (Ok (root_hash HO data), spec_outboard HO true data bs, []) /\
+  outboard_post_order_fsm HO (mkTree (blen HO data) bs) data
+    = (Ok (root_hash HO data), spec_outboard HO true data bs, []).
+Proof. exact e2e_post_order_writer. Qed.
+Print Assumptions C03_post_order_writer_e2e.
+
+Theorem C03_outboard_impl_e2e : forall (HO : hops) (data : bytes HO) (bs : N),
+  blen HO data <= 2 ^ 63 -> bs <= 10 ->
+  forall ob0 : outboard HO,
+  match save_all HO ob0 (saves HO data (post_plan (blen HO data) bs)) with
+  | Ok ob' => outboard_impl HO (mkTree (blen HO data) bs) data ob0 = (Ok (root_hash HO data), ob', []) /\
+              outboard_impl_fsm HO (mkTree (blen HO data) bs) data ob0 = (Ok (root_hash HO data), ob', [])
+  | Err k => fst (fst (outboard_impl HO (mkTree (blen HO data) bs) data ob0)) = Err k /\
+             fst (fst (outboard_impl_fsm HO (mkTree (blen HO data) bs) data ob0)) = Err k
+  | Panic => fst (fst (outboard_impl HO (mkTree (blen HO data) bs) data ob0)) = Panic /\
+             fst (fst (outboard_impl_fsm HO (mkTree (blen HO data) bs) data ob0)) = Panic
+  end.
+Proof. exact e2e_outboard_impl. Qed.
+Print Assumptions C03_outboard_impl_e2e.
+
+(* every entry point computes the BLAKE3 root; PreOrderMemOutboard::create included, unconditionally *)
+Theorem C03_root_all_entry_points_e2e : forall (HO : hops) (data : bytes HO) (bs : N),
+  blen HO data <= 2 ^ 63 -> bs <= 10 ->
+  let good (k : ob_kind) (r : res io_kind (outboard HO)) :=
+    exists ob, r = Ok ob /\ ob_root ob = root_hash HO data /\ ob_k ob = k /\
+               ob_tree ob = mkTree (blen HO data) bs in
+  (forall k, k = PreIO \/ k = PostIO -> good k (create_sized HO k data (blen HO data) bs)) /\
+  (forall k, k = PreIO \/ k = PostIO -> good k (create_sized_fsm HO k data (blen HO data) bs)) /\
+  (forall ob0 : outboard HO, ob_k ob0 = PreIO \/ ob_k ob0 = PostIO -> ob_tree ob0 = mkTree (blen HO data) bs ->
+     good (ob_k ob0) (init_from HO ob0 data) /\ good (ob_k ob0) (init_from_fsm HO ob0 data)) /\
+  good PreMem (pre_mem_create HO data bs) /\
+  post_mem_create HO data bs
+    = Ok (mkOb PostMem (root_hash HO data) (mkTree (blen HO data) bs) (spec_outboard HO true data bs)).
+Proof. exact e2e_root_all_entry_points. Qed.
+Print Assumptions C03_root_all_entry_points_e2e.
+
+(* every parent the creation loop saves has a slot of the pre-order outboard *)
+Theorem C03_pre_slots : forall (HO : hops) (data : bytes HO) (bs : N),
+  blen HO data <= 2 ^ 63 -> bs <= 10 ->
+  forall nd, In nd (plan_parents (post_plan (blen HO data) bs)) ->
+  exists o, pre_order_offset (mkTree (blen HO data) bs) nd = Some o /\ o < sp_blocks (blen HO data) bs - 1.
+Proof. exact e2e_pre_slots. Qed.
+Print Assumptions C03_pre_slots.
+
+Theorem C03_layout_post_e2e : forall (HO : hops) (data : bytes HO) (bs : N),
+  blen HO data <= 2 ^ 63 -> bs <= 10 -> cv_len32 HO ->
+  create_sized HO PostIO data (blen HO data) bs
+    = Ok (mkOb PostIO (root_hash HO data) (mkTree (blen HO data) bs) (spec_outboard HO true data bs)) /\
+  create_sized_fsm HO PostIO data (blen HO data) bs
+    = Ok (mkOb PostIO (root_hash HO data) (mkTree (blen HO data) bs) (spec_outboard HO true data bs)).
+Proof. exact e2e_layout_post. Qed.
+Print Assumptions C03_layout_post_e2e.
+
+Theorem C03_layout_pre_e2e : forall (HO : hops) (data : bytes HO) (bs : N),
+  blen HO data <= 2 ^ 63 -> bs <= 10 -> cv_len32 HO ->
+  create_sized HO PreIO data (blen HO data) bs
+    = Ok (mkOb PreIO (root_hash HO data) (mkTree (blen HO data) bs) (spec_outboard HO false data bs)) /\
+  create_sized_fsm HO PreIO data (blen HO data) bs
+    = Ok (mkOb PreIO (root_hash HO data) (mkTree (blen HO data) bs) (spec_outboard HO false data bs)).
+Proof. exact e2e_layout_pre. Qed.
+Print Assumptions C03_layout_pre_e2e.
